@@ -59,3 +59,103 @@ Theorem finish_utc_correct : forall tz utc data s,
 Proof. exact finish_utc_correct_lemma. Qed.
 Print Assumptions finish_utc_correct.
 
+
+From CCTZ Require Import ZoneLoad ZoneImpl ZoneZ ZoneRefineDefs LoadCert FinishZone.
+
+(* the denoted instant in a GENERAL zone (no offset in the input): everything parse() does after the scanning loop
+   returns lookup(civil).pre of the civil second the fields denote - leap second 60, 12-hour clock, year source,
+   normalisation test and the two range checks included - for every certified zone, and for every accepted file;
+   the %U/%W week-number branch against a calendar characterisation of (year, week, weekday) *)
+Theorem finish_zone_correct : forall tz utc data s,
+  zone_ok tz = true ->
+  ps_saw_offset s = false -> ps_offset s = 0 ->
+  ps_saw_s s = false -> ps_week_num s = -1 ->
+  skip_space data = [] ->
+  0 <= tm_sec (ps_tm s) <= 60 -> 0 <= tm_min (ps_tm s) <= 59 -> 0 <= tm_hour (ps_tm s) <= 23 ->
+  1 <= tm_mday (ps_tm s) <= 31 -> 0 <= tm_mon (ps_tm s) <= 11 ->
+  int64 (ps_year s) -> -2147483648 <= tm_year (ps_tm s) <= 2147483647 ->
+  (z_extended tz = false \/
+   (fy (civil_of_seconds (finish_zone_civil s)) <= z_last_year tz /\ z_last_year tz < YMAX)) ->
+  parse_finish tz utc (Some (data, s)) = OK (finish_zone_expected tz s).
+Proof. exact finish_zone_correct_lemma. Qed.
+Print Assumptions finish_zone_correct.
+
+Theorem finish_zone_every_accepted_file : forall bs tz utc data s,
+  load_bytes bs = OK (Some tz) ->
+  gaps_wide (zz_doff (abs_zone tz)) (zz_tr (abs_zone tz)) = true ->
+  ps_saw_offset s = false -> ps_offset s = 0 ->
+  ps_saw_s s = false -> ps_week_num s = -1 ->
+  skip_space data = [] ->
+  0 <= tm_sec (ps_tm s) <= 60 -> 0 <= tm_min (ps_tm s) <= 59 -> 0 <= tm_hour (ps_tm s) <= 23 ->
+  1 <= tm_mday (ps_tm s) <= 31 -> 0 <= tm_mon (ps_tm s) <= 11 ->
+  int64 (ps_year s) -> -2147483648 <= tm_year (ps_tm s) <= 2147483647 ->
+  (z_extended tz = false \/
+   (fy (civil_of_seconds (finish_zone_civil s)) <= z_last_year tz /\ z_last_year tz < YMAX)) ->
+  parse_finish tz utc (Some (data, s)) = OK (finish_zone_expected tz s).
+Proof. exact accepted_finish_zone_correct_lemma. Qed.
+Print Assumptions finish_zone_every_accepted_file.
+
+Theorem finish_zone_week : forall tz utc data s,
+  zone_ok tz = true ->
+  ps_saw_offset s = false -> ps_offset s = 0 ->
+  ps_saw_s s = false -> 0 <= ps_week_num s <= 53 -> 0 <= ps_week_start s <= 6 ->
+  skip_space data = [] ->
+  0 <= tm_sec (ps_tm s) <= 60 -> 0 <= tm_min (ps_tm s) <= 59 -> 0 <= tm_hour (ps_tm s) <= 23 ->
+  0 <= tm_wday (ps_tm s) <= 6 ->
+  int64 (ps_year s) -> -2147483648 <= tm_year (ps_tm s) <= 2147483647 ->
+  (z_extended tz = false \/
+   (fy (civil_of_seconds (finish_zone_civil_week s)) <= z_last_year tz /\ z_last_year tz < YMAX)) ->
+  parse_finish tz utc (Some (data, s)) = OK (finish_zone_expected_week tz s).
+Proof. exact finish_zone_week_lemma. Qed.
+Print Assumptions finish_zone_week.
+
+
+From CCTZ Require Import SourcePosix SourcePosixProofs SourceFmtParse SourceFmtParseProofs.
+
+(* SOURCE-DERIVED data-side helpers of parse() (SourceFmtParse.v, regenerated from clang's AST of
+   src/time_zone_format.cc on every run): never err, and compute what the hand-written model computes *)
+Theorem src_parse_int_tie : forall fuel buf dp width lo hi vp,
+  0 <= dp <= blen buf -> (length buf < fuel)%nat -> int32 width ->
+  match parse_int32 (suffix buf dp) width lo hi with
+  | Some (v, rest) => exists dp',
+      sf_ParseInt_int fuel buf dp width lo hi vp = OK (dp', v) /\ rest = suffix buf dp' /\
+      dp < dp' <= blen buf /\ lo <= v <= hi
+  | None => sf_ParseInt_int fuel buf dp width lo hi vp = OK (-1, vp)
+  end.
+Proof. exact sf_ParseInt_int_tie. Qed.
+Print Assumptions src_parse_int_tie.
+
+Theorem src_parse_int64_tie : forall fuel buf dp width lo hi vp,
+  0 <= dp <= blen buf -> (length buf < fuel)%nat -> int32 width ->
+  match parse_int64 (suffix buf dp) width lo hi with
+  | Some (v, rest) => exists dp',
+      sf_ParseInt_long fuel buf dp width lo hi vp = OK (dp', v) /\ rest = suffix buf dp' /\
+      dp < dp' <= blen buf /\ lo <= v <= hi
+  | None => sf_ParseInt_long fuel buf dp width lo hi vp = OK (-1, vp)
+  end.
+Proof. exact sf_ParseInt_long_tie. Qed.
+Print Assumptions src_parse_int64_tie.
+
+Theorem src_parse_offset_tie : forall fuel buf dp mode_buf mode off0,
+  0 <= dp <= blen buf -> 0 <= mode <= blen mode_buf -> (length buf < fuel)%nat ->
+  match fmt_parse_offset (suffix buf dp) (deref (suffix mode_buf mode)) with
+  | Some (v, rest) => exists dp',
+      sf_ParseOffset fuel buf dp mode_buf mode off0 = OK (dp', v) /\ rest = suffix buf dp' /\
+      dp < dp' <= blen buf /\ -86399 <= v <= 86399
+  | None => sf_ParseOffset fuel buf dp mode_buf mode off0 = OK (-1, off0)
+  end.
+Proof. exact sf_ParseOffset_tie. Qed.
+Print Assumptions src_parse_offset_tie.
+
+Theorem src_parse_subseconds_tie : forall fuel buf dp s0,
+  0 <= dp <= blen buf -> (length buf < fuel)%nat ->
+  match parse_subseconds (suffix buf dp) with
+  | OK (Some (v, rest)) => exists dp',
+      sf_ParseSubSeconds fuel buf dp s0 = OK (dp', v) /\ rest = suffix buf dp' /\
+      dp < dp' <= blen buf /\ 0 <= v < 1000000000000000
+  | OK None => sf_ParseSubSeconds fuel buf dp s0 = OK (-1, s0)
+  | Err _ => False      (* the model itself never errs either *)
+  end.
+Proof. exact sf_ParseSubSeconds_tie. Qed.
+Print Assumptions src_parse_subseconds_tie.
+
